@@ -455,9 +455,8 @@ Proof.
     destruct (live (r_forest rs) p) eqn:Hp; [|discriminate]. apply mem_In in Hp.
     unfold m_children_at.
     destruct (filter nonempty (split_slash path)) as [|a [|b l]]; [discriminate| |].
-    + destruct (list_eqb N.eqb a path) eqn:E; [|discriminate]. apply list_eqb_N in E. subst a.
-      rewrite (get_children_some _ _ _ _ _ HR Hp).
-      destruct (ref_key (r_forest rs) p path None) as [nm ns']. inversion Hs; now subst.
+    + rewrite (get_children_some _ _ _ _ _ HR Hp).
+      destruct (ref_key (r_forest rs) p a None) as [nm ns']. inversion Hs; now subst.
     + rewrite (walk_refine _ _ HR _ _ Hp).
       destruct (ref_path (r_forest rs) p (removelast (a :: b :: l))) as [node|] eqn:E.
       * pose proof (ref_path_live _ _ _ _ E Hp) as Hn.
